@@ -5,6 +5,7 @@ stops compiling and the check reports a broken obligation.
 -/
 import Pandora.Gen.GrpcStatus
 import Pandora.Model.C10
+import Pandora.Model.C10Paths
 import Pandora.Spec.C10
 
 namespace Pandora.Bridge.GrpcStatus
@@ -119,7 +120,7 @@ theorem sliceScenarioShoot_eq : Gen.GrpcStatus.sliceScenarioShoot = [
   "    return",
   "  }",
   "}",
-  "v3 := v1.shoot(v4, v5)",
+  "v3 := v1.shoot(v4, map[string]any{ \"source\": v4.VariableStorage.Variables(), })",
   "if v3 != nil {",
   "  return",
   "}"] := rfl
@@ -187,7 +188,7 @@ theorem sliceScenarioReportErr_eq : Gen.GrpcStatus.sliceScenarioReportErr = [
   "v3.base.Aggregator.Report(v2)"] := rfl
 
 theorem sliceGrpcShoot_eq : Gen.GrpcStatus.sliceGrpcShoot = [
-  "v1.shoot(v2)"] := rfl
+  "v1.shoot(v2.(*ammo.Ammo))"] := rfl
 
 theorem sliceGrpcShootInner_eq : Gen.GrpcStatus.sliceGrpcShootInner = [
   "v1 := 0",
@@ -220,11 +221,9 @@ theorem sliceGrpcScenarioShoot_eq : Gen.GrpcStatus.sliceGrpcScenarioShoot = [
 
 theorem sliceGrpcScenarioShootLoop_eq : Gen.GrpcStatus.sliceGrpcScenarioShootLoop = [
   "for _, v1 := range v2.Calls {",
-  "  v3 := v2.Name + \".\" + v1.Tag",
-  "  v4 := netsample.Acquire(v3)",
-  "  v5 := v6.shootStep(&v1, v4, v2.Name, v7, v8)",
-  "  if v5 != nil {",
-  "    return v5",
+  "  v3 := v4.shootStep(&v1, netsample.Acquire(v2.Name + \".\" + v1.Tag), v2.Name, v5, v6)",
+  "  if v3 != nil {",
+  "    return v3",
   "  }",
   "}",
   "return nil"] := rfl
@@ -324,5 +323,78 @@ theorem sliceHTTPProviderAcquire_eq : Gen.GrpcStatus.sliceHTTPProviderAcquire = 
   "  }",
   "}",
   "return httpProvider.NewGunAmmo(v4, v1.Tag(), v3.NextID()), v2"] := rfl
+
+/-! ### round 3: which client does the exchange, the pause of a scenario step -/
+
+/-- `Model.C10.clientDo`: the path summary of `NewRedirectingClient` — `redirect` (its second argument) true returns a
+`redirectClient` (an `*http.Client` with the default policy: `followDo`), false a `noRedirectClient` … (a path summary:
+reordering the branches or naming the results does not change it, returning a `redirectClient` for `false` does) -/
+theorem pathsNewRedirectingClient_eq : sameSet Gen.GrpcStatus.pathsNewRedirectingClient
+    [("redirectClient", ["arg1=true"]), ("noRedirectClient", ["arg1=false"])] = true := by decide
+
+/-- … whose `Do` is the bare `RoundTrip` (`bareDo`: the first answer is handed back as it came, `Location` unread) -/
+theorem srcNoRedirectClientDo_eq : Gen.GrpcStatus.srcNoRedirectClientDo = [
+  "return v1.Transport.RoundTrip(v2)"] := rfl
+
+/-- `PauseMode.sleeps`: the pause of a scenario step is `time.Sleep`, which no context interrupts -/
+theorem srcScenarioPause_eq : Gen.GrpcStatus.srcScenarioPause = [
+  "if v1.Sleep > 0 { time.Sleep(v1.Sleep) }"] := rfl
+theorem srcGrpcScenarioPause_eq : Gen.GrpcStatus.srcGrpcScenarioPause = [
+  "if v1.Sleep > 0 { time.Sleep(v1.Sleep) }"] := rfl
+
+/-! ### round 3: PATH SUMMARIES. The translator walks every path through the functions that report samples (callees
+inlined, deferred closures run at the exits that passed them) and keeps, per path, the exit and the events: setter calls,
+`Report` calls, the exchange results the path branches on. Nothing of the source TEXT survives in them (names, temporaries,
+order of independent statements, logging / tracing / templating code), so these lemmas survive refactorings that the
+slices above report; a path that reports twice, not at all, before the code is set or without the error breaks them.
+Each regenerated set is (as a set) the set of paths the MODEL's decision tree takes (`Model/C10Paths.lean`). -/
+
+section paths
+open Gen.GrpcStatus
+
+/-- `BaseGun.Shoot`: apart from the "must bind before shoot" panic (before anything happens) its paths are `shootHttp`'s -/
+theorem pathsBaseShoot_model : sameSet (pathsBaseShoot.filter (·.1 != "panic")) httpPaths = true := by decide
+theorem pathsBaseShoot_panic : pathsBaseShoot.filter (·.1 == "panic") = [("panic", [])] := by decide
+
+/-- http scenario `shootStep` = `stepHttp`; the step loop run for at most one step = `shootScenario`'s iteration;
+`Shoot` adds nothing but the bind check -/
+theorem pathsScenarioShootStep_model : sameSet pathsScenarioShootStep stepPaths = true := by decide
+theorem pathsScenarioShootLoop_model : sameSet pathsScenarioShootLoop loopPaths = true := by decide
+theorem pathsScenarioShoot_model :
+    sameSet (pathsScenarioShoot.filter (·.1 != "panic")) (loopPaths.map fun p => ("void", p.2)) = true := by decide
+theorem pathsScenarioShoot_panic : pathsScenarioShoot.filter (·.1 == "panic") = [("panic", [])] := by decide
+
+/-- gRPC gun `shoot` = `shootGrpc`; gRPC scenario `shootStep` = `stepGrpc`, its loop = `shootGrpcScenario`'s iteration -/
+theorem pathsGrpcShoot_model : sameSet pathsGrpcShoot grpcPaths = true := by decide
+theorem pathsGrpcScenarioShootStep_model : sameSet pathsGrpcScenarioShootStep grpcStepPaths = true := by decide
+theorem pathsGrpcScenarioShootLoop_model : sameSet pathsGrpcScenarioShootLoop grpcLoopPaths = true := by decide
+
+/-! what the property needs, read off the REGENERATED sets directly -/
+
+/-- every path of the plain guns that does not panic reports exactly once -/
+theorem paths_report_once :
+    (∀ p ∈ pathsBaseShoot, p.1 ≠ "panic" → reportCount p.2 = 1) ∧ (∀ p ∈ pathsGrpcShoot, reportCount p.2 = 1) := by decide
+
+/-- a scenario shot reports exactly once per step it enters (the loop run for at most one step: no `Report` only when no
+step was entered), whether the step passes or fails, with or without a pause -/
+theorem paths_scenario_report_once_per_step :
+    (∀ p ∈ pathsScenarioShootLoop, reportCount p.2 ≤ 1 ∧ (reportCount p.2 = 0 → p.2.all (· == "Sleep") = true)) ∧
+    (∀ p ∈ pathsGrpcScenarioShootLoop, reportCount p.2 ≤ 1 ∧ (reportCount p.2 = 0 → p.2.all (· == "Sleep") = true)) ∧
+    (∀ p ∈ pathsGrpcScenarioShootStep, reportCount p.2 = 1) := by decide
+
+/-- the status is on the sample before it is reported whenever a response was received; the error whenever the exchange
+or the body failed -/
+theorem paths_codes_before_report :
+    (∀ p ∈ pathsBaseShoot, p.2.contains "Do=ok" = true → (beforeReport p.2).contains "SetProtoCode" = true) ∧
+    (∀ p ∈ pathsBaseShoot, (p.2.contains "Do=err" || p.2.contains "Body=err") = true → (beforeReport p.2).contains "SetErr" = true) ∧
+    (∀ p ∈ pathsScenarioShootLoop, reportCount p.2 = 1 → (beforeReport p.2).contains "SetProtoCode" = true) ∧
+    (∀ p ∈ pathsScenarioShootLoop, p.1 = "err" → (beforeReport p.2).contains "SetErr" = true) := by decide
+
+/-- a step's pause comes after its sample has been reported (http) and never ends the step with an error -/
+theorem paths_pause_after_report :
+    (∀ p ∈ pathsScenarioShootStep, p.2.contains "Sleep" = true → p.1 = "nil" ∧ (beforeReport p.2).contains "Sleep" = false) ∧
+    (∀ p ∈ pathsGrpcScenarioShootStep, p.2.contains "Sleep" = true → p.1 = "nil") := by decide
+
+end paths
 
 end Pandora.Bridge.GrpcStatus
